@@ -68,8 +68,6 @@ class C06:
                 vt = x.magics.magic_int2tuple(magic_int)[:2]
             except Exception:
                 continue
-            if data[0:1] == b"0":
-                continue
             key = d if "pypy" in d else "%d.%d" % vt
             if "pypy" in d:
                 key = "pypy:%d:%d.%d" % (magic_int, vt[0], vt[1])
@@ -77,6 +75,10 @@ class C06:
                 continue
             hl = 8 if vt < (3, 3) else (12 if vt < (3, 7) else 16)
             self.corpus.setdefault(key, []).append((rel, magic_int, vt, data[hl:]))
+        # PyPy's own magic numbers (see c10.PYPY) with a marker payload in the marshal format of that language level
+        for magic_int, level in ((64, "3.3"), (112, "3.5"), (160, "3.6"), (192, "3.6"), (240, "3.7"), (256, "3.8"), (336, "3.9"), (384, "3.10")):
+            vt = rm.vtuple(level)
+            self.corpus.setdefault("pypy:%d:%d.%d" % (magic_int, vt[0], vt[1]), []).append(("synthetic", magic_int, vt, None))
         self.keys = sorted(self.magics) + sorted(k for k in self.corpus if k.startswith("pypy:"))
 
     def strategy(self, ctx):
@@ -107,6 +109,9 @@ class C06:
             rel, magic_int, vt, payload = self.corpus[key][case["marker"] % len(self.corpus[key])]
             expect_tree = None
             is_pypy = True
+            if payload is None:
+                marker = ["i", str(case["marker"])]
+                payload, _ = rm.encode(rm.template_code_tree("%d.%d" % vt, ["T", [marker, ["N"]]]), "%d.%d" % vt)
         else:
             vt = rm.vtuple(key)
             magic_int = self.magics[key]
